@@ -332,6 +332,21 @@ def run(chk, repo, tier):
                     and isinstance(x.value, ast.Call) and dotted(x.value.func) in ('WorkflowBuilder', 'Workflow')
                     for x in walk_no_nested(f.node)))
             chk.instance(W4, f'{f.qualname}: {unparse(n)[:60]} (allowed={allowed})')
+            # a graph taken over from another builder / workflow must be an independent copy (networkx copy(as_view=True) is a
+            # live view)
+            src_g = [x for x in ast.walk(n.value) if isinstance(x, ast.Attribute) and x.attr == '_g'
+                     and unparse(x.value) != 'self']
+            if src_g and f.name == '__init__':
+                from sa.srcmodel import is_real_copy
+                copied = any(is_real_copy(x) for x in ast.walk(n.value)) or any(
+                    isinstance(x, ast.Call) and dotted(x.func) in ('nx.DiGraph', 'networkx.DiGraph') for x in ast.walk(n.value))
+                chk.instance(W4, f'{f.qualname}: graph of `{unparse(src_g[0].value)}` taken over as an independent copy: {copied}')
+                if not copied:
+                    chk.violation(W4, f.module.rel, f.qualname, unparse(n)[:90],
+                                  'the new object shares the graph of the object it was made from',
+                                  line=n.lineno,
+                                  witness='Workflow(wb), then wb.add_task(...): the workflow created earlier gets the new task '
+                                          'and returns its result')
             if not allowed:
                 chk.violation(W4, f.module.rel, f.qualname, unparse(n), 'the task graph is written outside the builder',
                               line=n.lineno, witness='an existing Workflow value changes after it was created')
